@@ -1109,6 +1109,155 @@ def run_selrot(c):
 
 
 
+# ---------------------------------------------------------------- round 5: wide / near-square sources
+def ref_2fold_selection(Xd, Yd, params):
+    """Independent numpy statement of what Ridge2FoldCV documents: the alpha of the grid with the best 2-fold
+    score, and how many singular directions of the full design the final fit keeps.  Used for GATING and for
+    the selected-alpha comparison only.  Returns dict(alpha, idx, gap, kept, rank, margin)."""
+    from sklearn.model_selection import KFold
+    alphas = np.array(params["alphas"], dtype=float)
+    f1, f2 = next(KFold(n_splits=2, shuffle=True, random_state=params["random_state"]).split(Xd))
+    rcond = max(Xd.shape) * EPS
+    dec = []
+    for f in (f1, f2):
+        U, sv, Vt = np.linalg.svd(Xd[f], full_matrices=False)
+        nf = int((sv > rcond).sum())
+        dec.append((U[:, :nf], sv[:nf], Vt[:nf]))
+    scale = max(dec[0][1].max(), dec[1][1].max()) if params["alpha_type"] == "relative" else 1.0
+    scaled = alphas * scale
+
+    def score(pred, y):
+        err = ((pred - y) ** 2).mean(axis=0)
+        return -float(np.sqrt(err).mean()) if params["scoring"] == "neg_root_mean_squared_error" else -float(err.mean())
+
+    def predict(a, src, dst):
+        U, sv, Vt = dec[src]
+        if params["regularization_method"] == "cutoff":
+            k = int((sv > a).sum())
+            filt = np.where(np.arange(len(sv)) < k, 1.0 / sv, 0.0)
+        else:
+            filt = sv / (sv ** 2 + a)
+        fa, fb = (f1, f2) if src == 0 else (f2, f1)
+        return (Xd[fb] @ Vt.T * filt) @ (U.T @ Yd[fa])
+    cv = np.array([(score(predict(a, 0, 1), Yd[f2]) + score(predict(a, 1, 0), Yd[f1])) / 2 for a in scaled])
+    b = int(np.argmax(cv))
+    oth = cv[np.abs(cv - cv[b]) > 1e-13 * max(1e-300, abs(cv[b]))]
+    gap = float("inf") if oth.size == 0 else float((cv[b] - oth.max()) / max(abs(cv[b]), 1e-300))
+    sv = np.linalg.svd(Xd, compute_uv=False)
+    rank = int((sv > 1e-9 * sv[0]).sum())
+    # Tikhonov regularisation with alpha > 0 always shrinks: it never "keeps every direction" exactly
+    kept = int((sv[:rank] > scaled[b]).sum()) if params["regularization_method"] == "cutoff" else -1
+    thr = [scaled[b]] if params["regularization_method"] == "cutoff" else []
+    margin = min([abs(x / t - 1) for t in thr for x in sv[:rank]] + [1.0])
+    first_of_ties = b == int(np.flatnonzero(np.abs(cv - cv[b]) <= 1e-13 * max(1e-300, abs(cv[b])))[0])
+    return dict(alpha=float(alphas[b]), idx=b, gap=gap, kept=kept, rank=rank, margin=margin, exact_ties=first_of_ties,
+                cond_eff=float(sv[0] / sv[rank - 1]), tiny_alpha_tikhonov=bool(params["regularization_method"] == "tikhonov"
+                                                                                and scaled[b] < 1e-6 * sv[rank - 1] ** 2))
+
+
+DEFAULT_R2F = dict(alphas=[float(a) for a in np.geomspace(1e-9, 0.9, 20)], alpha_type="relative",
+                   regularization_method="cutoff", random_state=SEED0, shuffle=True,
+                   scoring="neg_root_mean_squared_error")
+
+
+def gen_wide_case(rng):
+    """the source has more features than a cross-validation half (n_train/2 < p <= n_train), about as many
+    as training rows, or more (p > n_train); default estimator and user Ridge2FoldCV grids"""
+    G = lambda r, c: np.array([[rng.gauss(0, 1) for _ in range(c)] for _ in range(r)])  # noqa: E731
+    ntr = rng.randint(10, 30)
+    n = ntr + rng.randint(4, 12)
+    regime = rng.choice(["half", "half", "near", "wide"])
+    if regime == "half":
+        p = rng.randint(ntr // 2 + 1, max(ntr // 2 + 1, ntr - 2))
+    elif regime == "near":
+        p = ntr + rng.randint(-1, 1)
+    else:
+        p = rng.randint(ntr + 2, 2 * ntr)
+    q = rng.randint(1, 3)
+    X = G(n, p) * np.geomspace(1, 10.0 ** rng.uniform(-1, 0), p)
+    A = G(p, q)
+    ykind = rng.choice(["contained", "noisy"])
+    Y = X @ A if ykind == "contained" else np.tanh(X @ A / math.sqrt(p)) + 0.4 * G(n, q)
+    est = rng.choice(["default", "r2f_grid", "r2f_tik", "r2f_relcut_mse"])
+    m = rng.randint(3, 20)
+    params = None
+    if est == "r2f_grid":
+        params = dict(DEFAULT_R2F, random_state=rng.randint(0, 99))
+    elif est == "r2f_tik":
+        params = dict(alphas=[float(a) for a in np.geomspace(1e-4, 1e2, m)], alpha_type="absolute",
+                      regularization_method="tikhonov", random_state=rng.randint(0, 99), shuffle=True,
+                      scoring=rng.choice([None, "neg_root_mean_squared_error"]))
+    elif est == "r2f_relcut_mse":
+        params = dict(alphas=[float(a) for a in np.geomspace(1e-6, 0.9, m)], alpha_type="relative",
+                      regularization_method="cutoff", random_state=rng.randint(0, 99), shuffle=True,
+                      scoring="neg_mean_squared_error")
+    idx = list(range(n))
+    rng.shuffle(idx)
+    return dict(kind="wide", regime=regime, ykind=ykind, X=X.tolist(), Y=Y.tolist(), A=A.tolist(), Q=_orth(rng, p).tolist(),
+                params=params, train_idx=idx[:ntr], test_idx=idx[ntr:], measure="gre", k=2)
+
+
+def run_wide(c):
+    """(message or None, statistics dict)"""
+    X, Y, Q = np.array(c["X"]), np.array(c["Y"]), np.array(c["Q"])
+    tr, te = c["train_idx"], c["test_idx"]
+    ntr, p = len(tr), X.shape[1]
+    mk = lambda: None if c["params"] is None else _build_est("r2f", c["params"])  # noqa: E731
+    name = "the default estimator" if c["params"] is None else "Ridge2FoldCV(%s %s, %d alphas, scoring=%r)" % (
+        c["params"]["alpha_type"], c["params"]["regularization_method"], len(c["params"]["alphas"]), c["params"]["scoring"])
+    tag = "p = %d source features, n_train = %d (cross-validation halves of %d and %d), %s" % (
+        p, ntr, ntr - ntr // 2, ntr // 2, name)
+    st = dict(rot_compared=0, zero_checked=0, alpha_checked=0)
+    try:
+        e_tr, e0, e1 = mk(), mk(), mk()
+        g_train = float(np.sqrt(np.mean(_hist_call(dict(c, test_idx=tr), e_tr, None) ** 2)))
+        v0 = _hist_call(c, e0, None)
+        v1 = _hist_call(dict(c, X=(X @ Q).tolist()), e1, None)
+    except Exception as e:  # noqa
+        return "GRE raised %s: %s [%s]" % (type(e).__name__, str(e)[:160], tag), st
+    if not (np.all(np.isfinite(v0)) and np.all(np.isfinite(v1)) and math.isfinite(g_train)):
+        return "non-finite GRE [%s]" % tag, st
+    # (1) C13_train_bound / C13_train_bound_cutoff: no gate, holds for every cut-off and every alpha >= 0
+    if g_train > 1 + 1e-9:
+        return "GRE evaluated on the training set is %.6g > 1 [%s]" % (g_train, tag), st
+    Xs, Ys = standardise(X[tr], X[tr]), standardise(Y[tr], Y[tr])
+    par = dict(DEFAULT_R2F) if c["params"] is None else dict(c["params"])
+    if par["scoring"] is None:
+        par["scoring"] = "neg_mean_squared_error"
+    ref = ref_2fold_selection(Xs, Ys, par)
+    decided = ref["gap"] > 1e-7 and ref["margin"] > 1e-6 and ref["exact_ties"] and ref["cond_eff"] < 1e6 \
+        and not ref["tiny_alpha_tikhonov"]
+    if not decided:
+        return None, st
+    # (3) source rotation (C13_gre_source_rotation; the selection is rotation invariant in exact arithmetic)
+    _, rtol, atol = tolerances(ref["cond_eff"])
+    st["rot_compared"] = 1
+    dev = np.abs(v0 - v1) - (10 * atol + 10 * rtol * np.maximum(np.abs(v0), np.abs(v1)))
+    if v0.shape != v1.shape or np.any(dev > 0):
+        i = int(np.argmax(dev))
+        return "GRE changes under a rotation of the source space: pointwise value %d is %.9g, after it %.9g [%s]" % (
+            i, v0[i], v1[i], tag), st
+    # (4) GRE(X, XA) = 0: training source of full column rank (p <= n_train - 2 after centring) and a selection
+    #     that keeps every direction (otherwise the estimator regularises, as intended)
+    if c["ykind"] == "contained" and p <= ntr - 2 and ref["rank"] == p and ref["kept"] == p:
+        sX = math.sqrt(float(((X[tr] - X[tr].mean(axis=0)) ** 2).mean(axis=0).sum()))
+        sY = math.sqrt(float(((Y[tr] - Y[tr].mean(axis=0)) ** 2).mean(axis=0).sum()))
+        tol = 1000 * EPS * math.sqrt(ntr) * float(np.linalg.norm(np.array(c["A"]) * sX / sY)) * max(1.0, ref["cond_eff"] / 100) + 64 * EPS
+        st["zero_checked"] = 1
+        st["zero_ratio"] = float(v0.max()) / tol
+        if float(v0.max()) > tol:
+            return ("GRE(X, XA) = %.3g is not zero up to rounding (bound %.3g) although the training source has full "
+                    "column rank and the best 2-fold score keeps all %d directions [%s]" % (float(v0.max()), tol, p, tag)), st
+    # (5) the alpha left on the user's estimator (fitted in place) is the one the documentation describes
+    if c["params"] is not None:
+        st["alpha_checked"] = 1
+        if not np.isclose(e0.alpha_, ref["alpha"], rtol=1e-12, atol=0):
+            return ("Ridge2FoldCV selected alpha = %.6g, the 2-fold %s of the grid is best at alpha = %.6g "
+                    "(relative score gap %.3g) [%s]" % (e0.alpha_, par["scoring"], ref["alpha"], ref["gap"], tag)), st
+    return None, st
+
+
+
 def run_round3b(ctx, stats):
     n_ill, n_hist = (140, 45) if ctx.quick else (900, 300)
     st = stats["round3b"] = dict(illcond={}, ill_gated={}, ill_max_ratio_to_bound=0.0, histories=0, history_calls=0,
@@ -1159,7 +1308,25 @@ def run_round3b(ctx, stats):
             ss["failures"] += 1
             if ss["failures"] <= 4:
                 C.report_violation(ctx, "C13 fails on the implementation: " + v, dict(case=c), found_input=True)
-    return n_ill + n_hist + n_sel
+    n_wide = 110 if ctx.quick else 700
+    ws = stats["round5_wide"] = dict(cases=0, regimes={}, rot_compared=0, zero_checked=0, alpha_checked=0,
+                                     max_zero_ratio=0.0, failures=0)
+    for _ in range(n_wide):
+        c = gen_wide_case(ctx.rng)
+        msg, wst = run_wide(c)
+        ws["cases"] += 1
+        key = "%s/%s" % (c["regime"], "default" if c["params"] is None else "user")
+        ws["regimes"][key] = ws["regimes"].get(key, 0) + 1
+        for a in ("rot_compared", "zero_checked", "alpha_checked"):
+            ws[a] += wst.get(a, 0)
+        ws["max_zero_ratio"] = max(ws["max_zero_ratio"], wst.get("zero_ratio", 0.0))
+        if msg:
+            ws["failures"] += 1
+            if ws["failures"] <= 5:
+                is_alpha = msg.startswith("Ridge2FoldCV selected alpha")
+                C.report_violation(ctx, ("C13 (estimator contract): " if is_alpha else "C13 fails on the implementation: ") + msg,
+                                   dict(case=c), found_input=not is_alpha)
+    return n_ill + n_hist + n_sel + n_wide
 
 
 
@@ -1321,6 +1488,10 @@ def replay(ctx, obj):
         print("replay:", "input check still differs: expected %s observed %s" % (exp, r) if bad
               else "input check agrees with its model on this input now")
         return 1 if bad else 0
+    if c.get("kind") == "wide":
+        msg, _ = run_wide(c)
+        print("replay:", msg or "wide-source clauses hold on this input now")
+        return 1 if msg else 0
     if c.get("kind") == "selrot":
         v = run_selrot(c)
         bad = bool(v) and not isinstance(v, tuple)
